@@ -30,6 +30,7 @@ type fnInfo struct {
 	guardVars  map[*types.Var]bool // variables of the progress-guard idiom
 	addrTaken  map[*types.Var]bool
 	inlinable  bool
+	noInline   bool
 }
 
 type pkgInfo struct {
@@ -52,6 +53,7 @@ type pkgInfo struct {
 	hasRelMem map[ast.Node]bool
 	// token.Token.IsKeyword is literally `tok > keyword_beg && tok < keyword_end`
 	isKeywordIsRange bool
+	assumedLoops     map[token.Pos]bool // loops listed as assumed_progress
 }
 
 func (pk *pkgInfo) posString(p token.Pos) string {
@@ -72,7 +74,7 @@ func (pk *pkgInfo) problem(p token.Pos, format string, args ...interface{}) {
 
 func loadPackage(repo string) *pkgInfo {
 	pk := &pkgInfo{repo: repo, fset: token.NewFileSet(), funcs: map[string]*fnInfo{}, byObj: map[*types.Func]*fnInfo{},
-		tokNames: map[int64]string{}, hasRelMem: map[ast.Node]bool{}}
+		tokNames: map[int64]string{}, hasRelMem: map[ast.Node]bool{}, assumedLoops: map[token.Pos]bool{}}
 	dir := filepath.Join(repo, "parser")
 	ctx := build.Default
 	ctx.BuildTags = nil // the plain build (verif_tick_off.go); the hook only adds the counter
@@ -324,6 +326,9 @@ func (pk *pkgInfo) checkPrimitives() {
 				if se, ok := ast.Unparen(x.Fun).(*ast.SelectorExpr); ok && se.Sel.Name == "verifTick" && fi.prim == "" {
 					pk.problem(x.Pos(), "verifTick called outside the tick primitives (in %s)", name)
 				}
+				if c := pk.calleeOf(x); c != nil && (c.name == "New" || c.name == "Parse") && name != "Parse" {
+					pk.problem(x.Pos(), "a second parser is created (in %s)", name)
+				}
 			case *ast.AssignStmt:
 				for _, l := range x.Lhs {
 					if pk.writesParserState(l) && name != "nextToken" && name != "New" {
@@ -566,4 +571,37 @@ func (f fact) subsetOf(g fact) bool {
 	default:
 		return false
 	}
+}
+
+// astCounts: call expressions of the tick primitives and of other relevant functions written in fi
+func (pk *pkgInfo) astCounts(fi *fnInfo) (next, tick, call int) {
+	ast.Inspect(fi.decl.Body, func(n ast.Node) bool {
+		if x, ok := n.(*ast.CallExpr); ok {
+			if c := pk.calleeOf(x); c != nil && c.relevant {
+				switch c.prim {
+				case "next":
+					next++
+				case "cur", "peek":
+					tick++
+				default:
+					call++
+				}
+			}
+		}
+		return true
+	})
+	return
+}
+
+// loopPositions: for/range statements of fi in source order
+func (pk *pkgInfo) loopPositions(fi *fnInfo) []token.Pos {
+	var ps []token.Pos
+	ast.Inspect(fi.decl.Body, func(n ast.Node) bool {
+		switch n.(type) {
+		case *ast.ForStmt, *ast.RangeStmt:
+			ps = append(ps, n.Pos())
+		}
+		return true
+	})
+	return ps
 }
